@@ -61,6 +61,20 @@ package notify
 //@   noeffect TimeMuter).Mutes SetMuted
 //@   assigns nothing
 
+// ---- C05: the gossip-settle wait in front of every receiver pipeline. Either the wait elapses and the batch is passed
+// on unchanged and without error, or the flush's context ends first and that is reported as the context's own error -
+// never as a success: a flush reported as successful lets the group forget the resolved alerts it holds.
+// Assumed (context package): Err is non-nil once Done has been received from.
+//@ func (*ClusterWaitStage).Exec
+//@   props C05
+//@   requires ws != nil && ctx != nil && ws.wait != nil
+//@   after call Context).Err assume ret("select") == 1 ==> res0 != nil
+//@   ensures [waited-passes-the-batch-on] result2 == nil ==> ret("select") == 0 && result1 == alerts && result0 == ctx
+//@   ensures [abandoned-wait-is-reported-as-the-context's-error] ret("select") == 1 ==> called("Context).Err") && result2 == ret("Context).Err") && result2 != nil && result1 == nil
+//@   ensures [settle-time-asked-for] called("dynamic:field:wait")
+//@   assigns nothing
+//@   noeffect dynamic:
+
 // ---- C05 / C20: one integration's delivery inside a flush (ticker and select are abstracted: any interleaving of
 // ticks and context cancellation is allowed, so everything below holds for all of them).
 //@ spec resolvedAtN(a *alert.Alert, now time.Time) bool = a.EndsAt != 0 && a.EndsAt <= now
